@@ -10,6 +10,9 @@
 //   H_EXEC        1: executed branch only, 0: unexecuted branch only, absent: both
 #pragma once
 typedef verif_bytes sbytes; typedef verif_stack sstack;
+#ifdef H_SIG
+#define SPEC_WITH_SIG
+#endif
 #include "spec_step.h"
 
 #ifndef H_N
@@ -69,7 +72,17 @@ extern "C" void h_step(void) {
     env.allow_disabled_opcodes = (H_ALLOW_DISABLED != 0);
 #endif
     // well-formedness of the environment (type invariants of the session state)
+#ifdef H_SV_TAPROOT
+    env.sigversion = SigVersion::TAPROOT;    // btcdeb's key-path preamble: <program> OP_CHECKSIG under the TAPROOT signature version
+#else
     __CPROVER_assume(env.sigversion == SigVersion::BASE || env.sigversion == SigVersion::WITNESS_V0 || env.sigversion == SigVersion::TAPSCRIPT);
+#endif
+#ifdef H_SV
+    __CPROVER_assume((int)env.sigversion == H_SV);
+#endif
+#ifdef H_SV_PRE
+    __CPROVER_assume(env.sigversion == SigVersion::BASE || env.sigversion == SigVersion::WITNESS_V0);
+#endif
     __CPROVER_assume(env.nOpCount >= 0 && env.nOpCount <= 201);
     __CPROVER_assume(env.vfExec.size() <= 2000000000UL);
     __CPROVER_assume(env.vfExec.all_true() || (env.vfExec.size() >= 1 && !env.vfExec.at(env.vfExec.size() - 1)));   // representation invariant: a false, if any, lies inside the stack
@@ -83,9 +96,21 @@ extern "C" void h_step(void) {
     __CPROVER_assume(!env.vfExec.all_true());
 #endif
     size_t pc_off = nondet_size(); size_t cs_off = nondet_size();
+#ifdef H_LOCAL_SCRIPT
+    // exec: the operation is decoded from a separate, temporary script; the debugged script and its position are a frame
+    CScript local; __CPROVER_havoc_object(&local); __CPROVER_assume(local.n <= VERIF_SCRIPT_CAP);
+    __CPROVER_assume(pc_off <= local.n && cs_off <= scr.n);
+    CScript::const_iterator pc = local.begin() + pc_off;
+    env.pbegincodehash = env.script.begin() + cs_off;
+#define H_SCRIPT_OBJ local
+#define H_LOCAL_ARG (&local)
+#else
     __CPROVER_assume(pc_off <= scr.n && cs_off <= pc_off);
     CScript::const_iterator pc = env.script.begin() + pc_off;
     env.pbegincodehash = env.script.begin() + cs_off;
+#define H_SCRIPT_OBJ env.script
+#define H_LOCAL_ARG 0
+#endif
     // ---------------- the decoded operation (contract of GetScriptOp) ----------------
     unsigned int opbyte = nondet_uint();
     __CPROVER_assume(opbyte <= 0xff && (H_OPSEL(opbyte)));
@@ -93,11 +118,19 @@ extern "C" void h_step(void) {
     g_getop_opcode = (opcodetype)opbyte;
     __CPROVER_havoc_object(&g_getop_push);
     // push payload: lengths 0..VERIF_ITEM_CAP have storage; 521..10000 are admitted for the size check only
+#ifdef H_PUSHLEN_LO
+    // boundary query: push lengths around the 520-byte limit, modelled by LENGTH only (no byte beyond the storage is read
+    // by the step: the size check precedes every use, and CheckMinimalPush reads data[0] only for 1-byte pushes)
+    __CPROVER_assume(g_getop_push.n >= H_PUSHLEN_LO && g_getop_push.n <= H_PUSHLEN_HI);
+#else
     __CPROVER_assume(g_getop_push.n <= VERIF_ITEM_CAP || (g_getop_push.n > 520 && g_getop_push.n <= 10000));
+#endif
     __CPROVER_assume(opbyte <= SOP_PUSHDATA4 || g_getop_push.n == 0);
+#ifndef H_PUSHLEN_LO
     __CPROVER_assume(opbyte >= SOP_PUSHDATA1 || g_getop_push.n == opbyte);
+#endif
     g_getop_adv = nondet_size();
-    __CPROVER_assume(g_getop_adv <= env.script.n - pc_off);
+    __CPROVER_assume(g_getop_adv <= H_SCRIPT_OBJ.n - pc_off);
     g_getop_calls = 0;
     g_locktime_ok = nondet_bool(); g_sequence_ok = nondet_bool(); g_locktime_calls = 0; g_sequence_calls = 0;
     g_hash_calls = 0; g_hash_algo = 0;
@@ -106,10 +139,31 @@ extern "C" void h_step(void) {
     // storage bound of the model: the concatenation must fit into one modelled element
     __CPROVER_assume(H_N < 2 || st.w[H_N >= 2 ? H_N - 1 : 0].n + st.w[H_N >= 2 ? H_N - 2 : 0].n <= VERIF_ITEM_CAP);
 #endif
+#ifdef H_SIG
+    // oracles of the signature opcodes: arbitrary verdicts, fixed for this step
+    SpecSigOracles orc; SpecSigUse use;
+    for (int i = 0; i < 24; ++i) { g_ecdsa_ok[i] = nondet_bool(); orc.ecdsa_ok[i] = g_ecdsa_ok[i]; int f = nondet_int(); __CPROVER_assume(f >= 0 && f <= 3); g_fad_result[i] = f; orc.fad_result[i] = f; }
+    g_ecdsa_calls = 0; g_fad_calls = 0; g_schnorr_calls = 0; g_lows_calls = 0;
+    g_schnorr_ok = nondet_bool(); g_schnorr_err = nondet_int(); __CPROVER_assume(g_schnorr_err >= (int)SCRIPT_ERR_SCHNORR_SIG_SIZE && g_schnorr_err <= (int)SCRIPT_ERR_SCHNORR_SIG);
+    g_lows_ok = nondet_bool(); orc.schnorr_ok = g_schnorr_ok; orc.schnorr_err = g_schnorr_err; orc.lows_ok = g_lows_ok;
+    g_mock_on = nondet_bool(); __CPROVER_havoc_object(&g_mock_sig); __CPROVER_havoc_object(&g_mock_key); __CPROVER_assume(g_mock_sig.n <= VERIF_ITEM_CAP && g_mock_key.n <= VERIF_ITEM_CAP);
+#ifdef H_MOCK
+    g_mock_on = (H_MOCK != 0);
+#endif
+    orc.mock_on = g_mock_on; orc.mock_sig = g_mock_sig; orc.mock_key = g_mock_key;
+    env.execdata.m_validation_weight_left_init = true;
+    use.ecdsa_calls = 0; use.schnorr_calls = 0; use.fad_calls = 0; use.weight = env.execdata.m_validation_weight_left;
+    __CPROVER_assume(use.weight >= -1000 && use.weight <= 4000000);
+    g_spec_orc = &orc; g_spec_use = &use;
+#ifdef H_MS_KEYS
+    // CHECKMULTISIG with a concrete number of keys and signatures (case split); layout from the top: nkeys, keys, nsigs, sigs, dummy
+    st.w[H_N - 1] = spec_enc(H_MS_KEYS); st.w[H_N - 2 - H_MS_KEYS] = spec_enc(H_MS_SIGS);
+#endif
+#endif
     // ---------------- what the rules prescribe ----------------
     SpecCtx c; SpecState s;
     c.flags = flags; c.allow_disabled = env.allow_disabled_opcodes; c.getop_ok = g_getop_ok; c.opcode = opbyte; c.push = g_getop_push;
-    c.sv = env.sigversion == SigVersion::BASE ? SSV_BASE : (env.sigversion == SigVersion::WITNESS_V0 ? SSV_WITNESS_V0 : SSV_TAPSCRIPT);
+    c.sv = env.sigversion == SigVersion::BASE ? SSV_BASE : (env.sigversion == SigVersion::WITNESS_V0 ? SSV_WITNESS_V0 : (env.sigversion == SigVersion::TAPROOT ? SSV_TAPROOT : SSV_TAPSCRIPT));
     c.locktime_ok = g_locktime_ok; c.sequence_ok = g_sequence_ok; c.opcode_pos = env.opcode_pos;
     for (int i = 0; i < 32; ++i) c.hash_out[i] = g_hash_out[i];
     s.stack = st; s.alt = env.altstack; s.cs_size = cs_size0; s.cs_first_false = cs_ff0; s.nOpCount = env.nOpCount;
@@ -126,12 +180,32 @@ extern "C" void h_step(void) {
 #ifdef H_CANARY_EXC
     __CPROVER_assert(o.kind != SO_EXC, "canary: an exception-raising operand is admitted by the precondition");
 #endif
+#if defined(H_LIM_OPS) || defined(H_LIM_GROW) || defined(H_PUSHLEN_LO)
+    {   // boundary witnesses (property C10): both sides of every limit this query can reach are reachable; the ensures below
+        // then pin the implementation to the prescribed verdict at exactly these points
+        const bool counted = (c.sv == SSV_BASE || c.sv == SSV_WITNESS_V0) && opbyte > SOP_16;
+        const size_t total0 = st.size() + env.altstack.size();
+#ifdef H_LIM_OPS
+        __CPROVER_assert(!(o.kind == SO_OK && counted && env.nOpCount == 200), "canary: the 201st counted operation of a legacy/v0 script succeeds");
+        __CPROVER_assert(!(o.kind == SO_ERR && o.err == (int)SCRIPT_ERR_OP_COUNT && env.nOpCount == 201), "canary: the 202nd counted operation fails with the op-count error");
+        __CPROVER_assert(!(o.kind == SO_OK && c.sv == SSV_TAPSCRIPT && env.nOpCount == 201 && opbyte > SOP_16), "canary: tapscript is exempt from the operation count");
+#endif
+#ifdef H_LIM_GROW
+        __CPROVER_assert(!(o.kind == SO_OK && s.stack.size() + s.alt.size() == 1000 && total0 == 1000 - H_LIM_GROW), "canary: growing to exactly 1000 combined items succeeds");
+        __CPROVER_assert(!(o.kind == SO_ERR && o.err == (int)SCRIPT_ERR_STACK_SIZE && total0 == 1001 - H_LIM_GROW), "canary: growing to 1001 combined items fails with the stack-size error");
+#endif
+#ifdef H_PUSHLEN_LO
+        __CPROVER_assert(!(o.kind == SO_OK && c.push.size() == 520), "canary: a 520-byte push succeeds");
+        __CPROVER_assert(!(o.kind == SO_ERR && o.err == (int)SCRIPT_ERR_PUSH_SIZE && c.push.size() == 521), "canary: a 521-byte push fails with the push-size error");
+#endif
+    }
+#endif
     // snapshot for the frame
     const unsigned int flags0 = env.flags; const SigVersion sv0 = env.sigversion; const bool rm0 = env.fRequireMinimal; const bool ad0 = env.allow_disabled_opcodes;
     const uint32_t oppos0 = env.opcode_pos; const int64_t vw0 = env.execdata.m_validation_weight_left; const CScript::const_iterator pend0 = env.pend;
     const CScript::const_iterator pc0 = pc; const CScript::const_iterator cs0 = env.pbegincodehash; const size_t scrn0 = env.script.n;
     // ---------------- the call ----------------
-    bool ok = StepScript(env, pc, 0);
+    bool ok = StepScript(env, pc, H_LOCAL_ARG);
     // ---------------- ensures ----------------
     __CPROVER_assert(o.kind != SO_EXC, "step: returns normally only where the rules prescribe no exception failure");
     if (o.kind == SO_ERR) {
@@ -149,5 +223,13 @@ extern "C" void h_step(void) {
     __CPROVER_assert(s.codesep_moved ? (env.pbegincodehash == pc && env.execdata.m_codeseparator_pos == s.codesep_pos) : (env.pbegincodehash == cs0 && env.execdata.m_codeseparator_pos == s.codesep_pos), "step: signed-code start and code-separator position change exactly on an executed OP_CODESEPARATOR");
     __CPROVER_assert(g_locktime_calls == s.locktime_calls && g_sequence_calls == s.sequence_calls && (s.locktime_calls == 0 || g_locktime_arg == s.locktime_arg) && (s.sequence_calls == 0 || g_sequence_arg == s.sequence_arg), "step: lock-time oracle consulted exactly as prescribed, with the decoded operand");
     __CPROVER_assert(g_hash_calls == s.hash_calls && (s.hash_calls == 0 || (g_hash_algo == s.hash_algo && g_hash_in == s.hash_in)), "step: hash oracle applied exactly once, to the popped item, with the named algorithm");
+#ifdef H_SIG
+    __CPROVER_assert(env.execdata.m_validation_weight_left == use.weight, "step: the tapscript signature budget is charged exactly 50 per non-empty signature checked");
+    __CPROVER_assert(g_schnorr_calls == use.schnorr_calls && (use.schnorr_calls == 0 || (g_schnorr_sig == use.schnorr_sig && g_schnorr_key == use.schnorr_key)), "step: Schnorr verification is requested exactly when prescribed, for the given signature and key");
+    __CPROVER_assert(g_ecdsa_calls >= use.ecdsa_calls, "step: every prescribed ECDSA verification is requested");
+    for (int i = 0; i < 24; ++i) if (i < use.ecdsa_calls) __CPROVER_assert(g_ecdsa_sig[i] == use.ecdsa_sig[i] && g_ecdsa_key[i] == use.ecdsa_key[i], "step: signatures are matched to keys in order (i-th verification is for the prescribed signature/key pair)");
+    __CPROVER_assert(env.flags == flags0 && env.sigversion == sv0 && env.fRequireMinimal == rm0 && env.allow_disabled_opcodes == ad0 && env.opcode_pos == oppos0 && env.pend == pend0 && env.script.n == scrn0, "frame: flags, script version, options and script bounds are unchanged by a signature operation");
+#else
     __CPROVER_assert(env.flags == flags0 && env.sigversion == sv0 && env.fRequireMinimal == rm0 && env.allow_disabled_opcodes == ad0 && env.opcode_pos == oppos0 && env.execdata.m_validation_weight_left == vw0 && env.pend == pend0 && env.script.n == scrn0, "frame: flags, script version, options, script bounds and signature budget are unchanged by a non-signature operation");
+#endif
 }
